@@ -40,10 +40,12 @@ if os.path.exists(mr):
         if 'error' in r:
             out.append('| %s | (pattern not found: %s) | | | |' % (k, r['error']))
             continue
-        out.append('| %s | %s | %s | %s | %s |' % (k, r['desc'], 'yes' if r['tests_pass'] else 'NO', ', '.join(r['expected']),
-                                                ', '.join(r['detected_by']) or '**missed**'))
-    nd = sum(1 for r in R.values() if r.get('detected'))
-    out.append('\n%d of %d catalogue changes detected.\n' % (nd, len(R)))
+        out.append('| %s | %s | %s | %s | %s |' % (k, r['desc'], 'yes' if r['tests_pass'] else 'NO', ', '.join(r['expected']) or '(none: control)',
+                                                ', '.join(r['detected_by']) or ('not reported (as expected)' if not r['expected'] else '**missed**')))
+    real = [r for r in R.values() if r.get('expected')]
+    nd = sum(1 for r in real if r.get('detected'))
+    out.append('\n%d of %d catalogue changes that break a listed property are detected; %d controls (an equivalent mutant, an out-of-scope change) are correctly not reported.\n'
+               % (nd, len(real), len(R) - len(real)))
 text = '\n'.join(out)
 p = os.path.join(HERE, 'DESIGN.md')
 s = open(p).read()
